@@ -462,29 +462,34 @@ def p5(facts, tier):
 RAW = ("BULK", "RAW1", "REGION")
 
 
-def region_ok(facts, orc, sym, ver):
+def region_why(facts, orc, sym, ver):
+    """None if the partial region is legal, else the reason it is not"""
     _, full, variant, f1, f2 = sym
     lay = facts.layouts.get(full)
     if not lay or f1 is None or f2 is None:
-        return False
+        return "no layout / open-ended region"
     fields = lay.get("fields")
     if variant is not None:
         fields = next((v.get("fields") for v in lay.get("variants", []) if v["name"] == variant), None)
     if not fields:
-        return False
+        return "no fields"
     names = [x["name"] for x in fields]
     if f1 not in names or f2 not in names:
-        return False
+        return f"fields {f1}/{f2} not in the layout"
     run = fields[names.index(f1):names.index(f2) + 1]
     pos = run[0]["offset"]
     for x in run:
         if x["offset"] != pos:
-            return False
-        ok, _ = orc.ok(x["ty"], ver)
+            return f"field {x['name']} is at offset {x['offset']}, the run reaches it at {pos} (padding or reordering)"
+        ok, why = orc.ok(x["ty"], ver)
         if not ok:
-            return False
+            return f"field {x['name']}: {x['ty']} is not stored as it is written ({why})"
         pos += x["size"]
-    return True
+    return None
+
+
+def region_ok(facts, orc, sym, ver):
+    return region_why(facts, orc, sym, ver) is None
 
 
 @rule("P3", ["C04", "C01", "C02"], floor=300, doc="every raw memory write/read (bulk slice, raw_write_region) of every library and derived impl lies in a branch "
@@ -507,8 +512,13 @@ def p3(facts, tier):
         raws = [s for s in raws if not (s[0] == "REGION" and region_ok(facts, orc, s, 0))]
         key = f["id"]
         if raws:
-            yield ob(["C04", "C01", "C02"], "P3", key, "violation", where(f), f"{f['id']}: raw memory event {raws[0]} is reachable although every Packed "
-                     f"decision answers no (guards: {sorted(map(repr, guards))})")
+            if raws[0][0] == "REGION":
+                yield ob(["C04", "C01", "C02"], "P3", key, "violation", where(f),
+                         f"{f['id']}: the run of fields {raws[0][3]}..{raws[0][4]} is written with one raw copy of memory (the type as a whole is not "
+                         f"Packed), but {region_why(facts, orc, raws[0], 0)}: the bytes differ from the field-by-field encoding that the reader consumes")
+            else:
+                yield ob(["C04", "C01", "C02"], "P3", key, "violation", where(f), f"{f['id']}: raw memory event {raws[0]} is reachable although every Packed "
+                         f"decision answers no (guards: {sorted(map(repr, guards))})")
         else:
             l1, _, _, _ = W.lang(f, 0, {g: True for g in guards}, ts, expand=False)
             has_raw = any(isinstance(s, tuple) and s[0] in RAW for s in rx.symbols(l1))
